@@ -12,14 +12,15 @@ class BufferScn(Scenario):
     name = 'buffer'
     modules = ['mpservice._queues', 'mpservice.threading', 'mpservice.streamer._streamer']
 
-    def __init__(self, N=2, maxsize=1, fail_kinds=1, lookahead=False, may_fail=True, may_stop=True):
+    def __init__(self, N=2, maxsize=1, fail_kinds=1, lookahead=False, may_fail=True, may_stop=True, lazy_take=None):
         self.N, self.maxsize, self.fail_kinds = N, maxsize, fail_kinds
         self.lookahead = lookahead
         self.may_fail, self.may_stop = may_fail, may_stop
+        self.lazy_take = lazy_take
         self.halt = lookahead
         self.params = dict(N=N, maxsize=maxsize, fail_kinds=fail_kinds, lookahead=lookahead,
-                           may_fail=may_fail, may_stop=may_stop)
-        self.caps = {'deque': maxsize + 1}
+                           may_fail=may_fail, may_stop=may_stop, lazy_take=lazy_take)
+        self.caps = {'deque': N + 3}
 
     def main(self):
         from mpservice.streamer._streamer import Buffer
@@ -27,6 +28,7 @@ class BufferScn(Scenario):
         N = self.N
         pulled = SCounter('pulled') if self.lookahead else None
         handed = SCounter('handed') if self.lookahead else None
+        self._ctrs = (pulled, handed)
 
         def fails(i):
             return self.may_fail and choose(f'fail{i}', 2) == 1
@@ -55,6 +57,9 @@ class BufferScn(Scenario):
                 out.append(y)
                 if handed is not None:
                     handed.inc()
+                if self.lazy_take is not None and len(out) >= self.lazy_take:
+                    stopped = True
+                    break
                 if self.may_stop and choose(f'stop{len(out)}', 2) == 1:
                     stopped = True
                     break
@@ -101,3 +106,11 @@ class BufferScn(Scenario):
             return None
         import z3
         return z3.ULE(S.get('pulled.n') - S.get('handed.n'), self.maxsize + 2)
+
+    def concrete_snapshot(self):
+        if not self.lookahead:
+            return None
+        return {'pulled': self._ctrs[0]._real, 'handed': self._ctrs[1]._real}
+
+    def concrete_invariant(self, snap):
+        return snap['pulled'] - snap['handed'] <= self.maxsize + 2
